@@ -154,7 +154,7 @@ Proof.
       unfold g_positions. cbn [flat_map fst snd]. change (23 =? 133) with false. cbn iota. cbn [app].
       destruct (len d <? 2); [discriminate|].
       destruct (read_u16 d) as [cx|e| |]; cbn [obind] in H; try discriminate.
-      destruct (map_o xls_xti (firstN cx (chunks_exact 6 (drop 2 d)))) as [xs|e| |]; cbn [obind] in H;
+      destruct (map_o xls_xti (firstN cx (chunks_exact 6 (drop 2 d ++ concat (conts_of c))))) as [xs|e| |]; cbn [obind] in H;
         try discriminate.
       apply (IH _ _ H). }
     destruct (t =? 252) eqn:E252.
@@ -174,14 +174,16 @@ Lemma frames_map : forall (A : Type) (g : A -> grec) l,
   frames (map g l) = flat_map (fun x => frame (fst (g x)) (snd (g x))) l.
 Proof. intros A g. induction l as [|x l IH]; [reflexivity|]. cbn [map]. rewrite frames_cons, IH. reflexivity. Qed.
 
-Lemma xls_stream_frames : forall c wb,
+(* (the XTI array in the ExternSheet record alone: no CONTINUE records) *)
+Lemma xls_stream_frames : forall c wb, lc_xcuts c = [] ->
   xls_stream c wb = frames (grecs c wb) ++ frame 10 [] ++ lc_tail c.
 Proof.
-  intros c wb. unfold xls_stream, grecs.
+  intros c wb Hcuts. unfold xls_stream, grecs. rewrite Hcuts.
   rewrite frames_cons. cbn [fst snd]. rewrite !frames_app, !frames_map. cbn [fst snd].
   rewrite <- !app_assoc. f_equal. f_equal.
   destruct (lc_omit_1904 c && negb (wb_1904 wb)); destruct (lc_xtis c) as [|x xs];
-    cbn [frames flat_map fst snd app]; rewrite <- ?app_assoc; cbn [app]; reflexivity.
+    unfold extern_rec, frame_rec; cbn [xpieces frames flat_map fst snd app]; rewrite ?app_nil_r, <- ?app_assoc;
+    cbn [app]; reflexivity.
 Qed.
 
 (* Meta's legality does not depend on the positions and the tail beyond their bounds *)
@@ -204,15 +206,15 @@ Lemma xls_legal_transfer : forall ch wb tail,
   nc tail ->
   xls_legal (meta_choice false ch tail) wb = true.
 Proof.
-  intros ch wb tail H HP Hn. unfold xls_legal in *.
-  cbn [meta_choice lc_junk0 lc_junk1 lc_junk2 lc_junk3 lc_sheets lc_names lc_xtis lc_tail] in *.
+  intros ch wb tail H HP Hn. unfold xls_legal, spec_env_xls in *.
+  cbn [meta_choice lc_junk0 lc_junk1 lc_junk2 lc_junk3 lc_sheets lc_names lc_xtis lc_xcuts lc_tail] in *.
   repeat (apply andb_true_iff in H; destruct H as [H ?]).
   repeat (apply andb_true_iff; split); try assumption.
   - apply ls_legal_transfer; [assumption|]. eapply Forall_impl; [|exact HP]. intros a [Ha _]. exact Ha.
   - apply negb_true_iff. exact Hn.
   - apply forallb_forall. intros lc Hin. unfold ls_choices in Hin. apply in_map_iff in Hin.
     destruct Hin as [sc [<- Hsc]]. cbn [ls_pos]. rewrite Forall_forall in HP.
-    destruct (HP sc Hsc) as [_ Hle]. rewrite xls_stream_frames. cbn [lc_tail meta_choice].
+    destruct (HP sc Hsc) as [_ Hle]. rewrite xls_stream_frames by reflexivity. cbn [lc_tail meta_choice].
     rewrite !len_app. lia.
 Qed.
 
@@ -257,11 +259,13 @@ Proof.
   - eapply IH; eassumption.
 Qed.
 
-Lemma grecs_gp : forall c wb, xls_legal c wb = true -> Forall gp133 (grecs c wb).
+Lemma grecs_gp : forall c wb, lc_xcuts c = [] -> xls_legal c wb = true -> Forall gp133 (grecs c wb).
 Proof.
-  intros c wb Hl. unfold xls_legal in Hl.
+  intros c wb Hcuts Hl. unfold xls_legal in Hl.
   apply andb_true_iff in Hl. destruct Hl as [Hl Hpos].
   apply andb_true_iff in Hl. destruct Hl as [Hl Htail].
+  apply andb_true_iff in Hl. destruct Hl as [Hl Hps].
+  apply andb_true_iff in Hl. destruct Hl as [Hl Hp0].
   apply andb_true_iff in Hl. destruct Hl as [Hl Hnx].
   apply andb_true_iff in Hl. destruct Hl as [Hl Hxt].
   apply andb_true_iff in Hl. destruct Hl as [Hl Hnames].
@@ -282,8 +286,7 @@ Proof.
     apply len_boundsheet. exact (forallb2_in_combine _ _ _ _ _ _ _ Hsheets Hin).
   - destruct (lc_xtis c) as [|x xs] eqn:Ex; [constructor|].
     repeat constructor; cbn [fst snd]; try discriminate.
-    rewrite len_app, len_xti6_blocks. change (len (le16 (len (x :: xs)))) with 2.
-    lia.
+    rewrite Hcuts in Hp0. unfold extern_rec in Hp0. cbn [xpieces fst] in Hp0. apply N.leb_le in Hp0. exact Hp0.
   - apply Forall_map_in. intros [n lc] Hin. unfold gp133. cbn [fst snd].
     repeat split; try discriminate.
     eapply len_lbl_body. exact (forallb2_in_combine _ _ _ _ _ _ _ Hnames Hin).
@@ -352,7 +355,7 @@ Proof.
     cbn [flat_map]. unfold pickg. cbn [fst]. replace (34 =? T) with false by lia. reflexivity. }
   rewrite E1. cbn [app]. f_equal.
   assert (E3 : flat_map (pickg T h)
-                 (map (fun nc : (str * xref) * ln_choice => (24, lbl_body (fst nc) (snd nc)))
+                 (map (fun nc : (str * Ptg.expr) * ln_choice => (24, lbl_body (fst nc) (snd nc)))
                       (combine (wb_names wb) (lc_names c))) = []).
   { apply pickg_map_other. lia. }
   rewrite E3. cbn [app].
@@ -579,7 +582,7 @@ Theorem globals_written : forall (show_f64 : N -> list N) wb ch,
   gi_formats (all_junk ch) = NumFmt.customs (lw_styles wb) ->
   exists st,
     xls_globals (records (xls_stream_write wb ch)) xls_state0 = Ok st /\
-    xls_resolve show_f64 st = Ok (spec_names_xls (meta_choice true ch []) (meta_wb wb)) /\
+    xls_resolve show_f64 st = Ok (spec_names_xls show_f64 (meta_choice true ch []) (meta_wb wb)) /\
     xg_sheets st = combine (map sc_pos (xc_sheets ch)) (map ls_meta (lw_sheets wb)) /\
     xg_1904 st = lw_1904 wb /\
     globals_env (records (xls_stream_write wb ch)) (lw_1904 wb) = env_of wb.
@@ -617,10 +620,10 @@ Proof.
   apply parse_workbook_inv in Hparse. destruct Hparse as [st [Hg [Hres [Hsh H1904]]]].
   (* both streams as record lists *)
   set (L := grecs (meta_choice false ch pad) wbm) in *.
-  assert (HL : Forall gp133 L) by (apply grecs_gp; exact Hleg).
+  assert (HL : Forall gp133 L) by (apply grecs_gp; [reflexivity|exact Hleg]).
   assert (Hrec0 : records (xls_stream (meta_choice false ch pad) wbm) =
                   map okrec L ++ Ok (10, [], None) :: records pad).
-  { rewrite xls_stream_frames. fold L. rewrite (records_frames _ _ (gp_good _ HL) (nc_eof _)).
+  { rewrite xls_stream_frames by reflexivity. fold L. rewrite (records_frames _ _ (gp_good _ HL) (nc_eof _)).
     f_equal. apply (records_plain 10 [] pad len_nil_ok (nc_zeros _)). }
   set (k := xc_sst_at ch). set (sst := sst_of wb ch).
   assert (Hrec : records stream =
@@ -792,7 +795,7 @@ Qed.
 (* parse_workbook on the written Workbook stream *)
 Theorem xls_stream_main : forall wb ch,
   xfile_legal fdiv100 decode16 wb ch ->
-  xls_stream_model fdiv100 decode16 show_f64 (xls_stream_write wb ch) = Ok (spec_result wb ch).
+  xls_stream_model fdiv100 decode16 show_f64 (xls_stream_write wb ch) = Ok (spec_result show_f64 wb ch).
 Proof.
   intros wb ch (Hb & Hxfs & Hfmts & Hnd & Hcells).
   destruct (globals_written show_f64 wb ch Hb Hxfs Hfmts) as [st (Hg & Hres & Hsh & H1904 & Henv)].
@@ -832,7 +835,7 @@ Qed.
 
 Theorem xls_file_main : forall wb ch fuel,
   xfile_legal fdiv100 decode16 wb ch -> (Cfb.fuel_for (xc_layout ch) <= fuel)%nat ->
-  xls_open_model fdiv100 decode16 show_f64 fuel (xls_file_write wb ch) = Ok (spec_result wb ch).
+  xls_open_model fdiv100 decode16 show_f64 fuel (xls_file_write wb ch) = Ok (spec_result show_f64 wb ch).
 Proof.
   intros wb ch fuel HL Hfuel. pose proof HL as (Hb & _).
   unfold xfile_legalb in Hb.
@@ -971,12 +974,12 @@ Definition ex_wb : lwb :=
          mkLSheet (mkMeta [128512] Visible MacroSheet)
            [((1, 1), DString [104; 0; 105; 0; 172; 32]); ((5, 1), DInt 7);
             ((5, 2), DDateTime 4619567317775286272 false true)]]
-        [([110], XRef Ptg.CRef 0 (Ptg.Build_cref 0 1 false true))] true
+        [([110], Ptg.ERef3d Ptg.CRef 0 (Ptg.Build_cref 0 1 false true))] true
         (NumFmt.mkStyleTable [(164, [91; 104; 93; 58; 109; 109])] [Some 0; Some 14; Some 164])
         [[104; 105]; []; [55357; 56832; 97]].
 Definition ex_sl0 : str_layout := mkSL false false [] None None [].
 Definition ex_ch0 : xchoice :=
-  mkXch [mkSc false 3 0 ex_lay1; mkSc true 0 0 ex_lay2] [mkLn false 0 0 0] [(0, 1, 1)]
+  mkXch [mkSc false 3 0 ex_lay1; mkSc true 0 0 ex_lay2] [mkLn false 0 0 0 []] [(0, 1, 1)]
         [GJunk 225 [176; 4]; GXf 0 0 [1; 2; 3]] [GFormat 164 false [91; 104; 93; 58; 109; 109]; GXf 5 14 []]
         [GXf 0 164 [9]] [GJunk 255 []] false 4
         (mkLay 7 [ex_sl0; ex_sl0; mkSL true true [(1%nat, true)] None None []])
@@ -992,8 +995,8 @@ Lemma example_whole : forall fdiv100,
   map sc_pos (xc_sheets ex_ch) = [198; 336] /\
   length (xls_file_write ex_wb ex_ch) = 2560%nat /\
   xls_open_model fdiv100 BiffRec_proofs.id_decode (fun _ => []) 1 (xls_file_write ex_wb ex_ch) =
-    Ok (spec_result ex_wb ex_ch) /\
-  wr_names (spec_result ex_wb ex_ch) = [([110], [128512; 33; 66; 36; 49])].
+    Ok (spec_result (fun _ => []) ex_wb ex_ch) /\
+  wr_names (spec_result (fun _ => []) ex_wb ex_ch) = [([110], [128512; 33; 66; 36; 49])].
 Proof.
   intros fdiv100. split; [|split; [|split; [|split]]].
   - split; [vm_compute; reflexivity|]. split; [reflexivity|]. split; [reflexivity|]. split.
